@@ -82,7 +82,7 @@ PLAN = {
     'C08': {
         'bounded': ['suffix_forms', 'update_engine'],
         'level': 'proof',
-        'units': ['phon', 'util', 'data'],
+        'units': ['phon', 'util', 'data', 'pmeth'],
         'technique': 'Verus: full functional postcondition of add_suffix_to_suggestions (every split point x every memoised base x three joining rules) with loop invariants',
         'claim': 'Proof that the suffix-built candidates are exactly: for every split point, in order, with a known suffix and a memoised base, every memoised candidate of the base joined by the three rules of the statement (rank preserved) -- soundness and completeness in one postcondition; is_vowel/is_kar proved equal to their sets.',
         'note': COMMON_TRUST + 'include_from_dictionary (regex) is T2: assumed contract ph_dict; ASCII byte/char bridge axioms for &s[a..b].',
@@ -98,7 +98,7 @@ PLAN = {
     'C10': {
         'bounded': ['user_files', 'update_engine'],
         'level': 'proof',
-        'units': ['pmeth', 'phon'],
+        'units': ['pmeth', 'phon', 'data'],
         'technique': 'Verus with adversarial environment stubs: fs/serde/time functions may fail or return anything; unwrap preconditions must hold for every outcome',
         'claim': 'Proof that PhoneticMethod::new, update_engine and candidate_committed are panic-free when every file-system and JSON operation may fail or return arbitrary maps (including empty strings), that the invariants hold afterwards for every outcome, and that the suffix/selection code never unwraps on values taken from those maps.',
         'note': COMMON_TRUST + 'Assumed: metadata()/modified() of a just-opened file succeed; serde_json::to_string of a string map succeeds; read() of an open file does not fail.',
@@ -106,7 +106,7 @@ PLAN = {
     'C11': {
         'bounded': ['update_engine'], 'static': ['no_option_fields', 'context_glue'],
         'level': 'proof',
-        'units': ['pmeth', 'fixed_session', 'data'],
+        'units': ['pmeth', 'fixed_session', 'data', 'phon'],
         'technique': 'Verus: update_engine re-establishes the memo invariant w.r.t. the reloaded list; methods hold no option state (all contracts are functions of the config argument)',
         'claim': 'Proof that after update_engine the memo is transparent w.r.t. the user list then in force for every data set (so no stale candidate survives a reload or a removed file), that the user list afterwards is what a new context would load (file gone: empty; file newer than the copy held: its content, re-read; otherwise unchanged -- stated with load / time-stamp markers) and that PhoneticMethod::new loads it the same way, that FixedMethod::update_engine changes nothing, and that every operation contract depends on options only through its config argument (the method structs have no option fields).',
         'note': COMMON_TRUST + 'Layout switch and storing the new config happen in src/context.rs (pinned glue); an edit that does not advance the modification time is invisible by design (mtime granularity); assumption: no existing file is dated exactly the Unix epoch (the code\'s own "no file" marker); Data::new is proved to load the three tables of the data directory whatever the options are (update_engine never reloads them); the bounded check update_engine additionally compares every ordered pair of a five-configuration family (phonetic with / without suggestions, Probhat with the number pad on / off, synthetic layout) against a new context.',
@@ -154,7 +154,7 @@ PLAN = {
     'C17': {
         'bounded': ['smart_quote', 'split', 'update_engine'],
         'level': 'proof',
-        'units': ['util', 'fixed_session', 'phon', 'split'],
+        'units': ['util', 'fixed_session', 'phon', 'split', 'pmeth'],
         'technique': 'Verus: smart_quoter == pointwise curl maps with loop invariants; placement clause (applied once, after splitting, only with the option on) in both list functions',
         'claim': 'Proof that smart_quoter maps straight quotes before a non-empty word to opening and after it to closing curved quotes and changes nothing else (nothing at all for punctuation-only text), and that both methods apply it exactly when the option is on, to the split parts that every non-raw candidate is wrapped in.  Relational clause at spec level over the proved list functions: lemma_c17_fixed (fixed method, every text) and lemma_c17_phonetic (phonetic method, every text whose raw form coincides with no other candidate -- the complement is the recorded known finding): the list with the option on and the list with it off have the same length and, position by position, the same rank and the same text once curly quotes are mapped back.',
         'note': COMMON_TRUST + 'The relational lemmas rest on one more axiom about std sorts: a comparison sort sees its elements only through the comparator (proved to be a function of the rank tags), so the arrangement it chooses is a function of the tag sequence.  Equality of the preselected index under the two settings is not a lemma (bounded check smart_quote).',
@@ -162,7 +162,7 @@ PLAN = {
     'C18': {
         'bounded': ['emoji_tables', 'phonetic_api', 'update_engine', 'fixed_api'], 'data': ['tables'],
         'level': 'proof',
-        'units': ['fixed_session', 'phon', 'rank', 'data'],
+        'units': ['fixed_session', 'phon', 'rank', 'data', 'pmeth'],
         'technique': 'Verus: emoticon / emoji-name clauses of the assembled list, with the real zip(1..).map(closure) + extend code verified in place',
         'claim': 'Proof, for both methods, of the emoticon branch (emoji pushed with rank 1; in phonetic mode the literal text kept unless it is the transliteration itself) and of the emoji-name branch on the REAL code: every emoji the table lists for the word part (English name in phonetic mode, Bengali name in fixed mode) is appended in table order, the k-th with rank k, each wrapped in the same (curled) punctuation as every other candidate, only outside ANSI mode and only if no emoticon matched; the returned list is the (stable / unstable) sort of that assembly, so the non-emoji candidates keep their relative order (C07 / C15 lemmas); Rank::cmp is proved to order two emoji by their number, hence (lemma_c18_fixed_order) the emoji of the fixed list are in table order whatever the unstable sort does with ties, each being the k-th table emoji wrapped like the word, and the cut at nine keeps the first ones. Bounded: every Bengali name typed through a generated layout, every English name and emoticon, expected lists read from the emojicon sources independently of the engine look-ups.',
         'note': COMMON_TRUST + 'The two five-line regions are no longer abstracted: the closure body (Rank::emoji_ranked(format!(...), r)) is verified against its ensures; the rewrites are mechanical (D14: the closure is bound to a local and its tuple pattern opened by a let, because Verus cannot quantify over an anonymous closure). Assumed (T3): std contracts for Iterator::zip / map (vstd), Vec::extend over a Map (applies the closure front to back and appends), RangeFrom<u8> yields start, start+1, ...; the emojicon crate (two constant tables, three look-ups: unit data proves that Data::new stores the constant tables whatever the configuration and that the three Data look-ups pass the word on unchanged to the table of the method) with the data precondition of fewer than 256 emoji per name, validated on the emojicon sources by tools/data_pre.py.',
